@@ -336,6 +336,115 @@ theorem shipped_upload_witness :
     (uploadBinary true 22 20 1 0 3 (List.range 50) (Dev.init witnessPlan)).2.dev.trace =
       [.block 0 (List.range 22), .block 1 ((List.range 44).drop 22), .status] := by decide +kernel
 
+/-! ### a block whose request gets no answer (fixes/C18-5) -/
+
+/-- the request for block 1 (the second request) gets no answer, everything else is accepted -/
+def silentPlan : Nat → Reply := fun i => if i = 1 then .noAnswer else .ok
+
+/-- as shipped: the unanswered block 1 is never sent again - the next request carries number 2 and the
+FOLLOWING bytes - and the upload "succeeds": the controller does not hold the binary. -/
+theorem shipped_upload_skips_silent_block :
+    (uploadBinary true 22 20 1 0 3 (List.range 50) (Dev.init silentPlan)).1 = .ok () ∧
+    (uploadBinary true 22 20 1 0 3 (List.range 50) (Dev.init silentPlan)).2.dev.trace =
+      [.block 0 (List.range 22), .block 1 ((List.range 44).drop 22), .block 2 ((List.range 50).drop 44)] ∧
+    heardFrom silentPlan 0 (uploadBinary true 22 20 1 0 3 (List.range 50) (Dev.init silentPlan)).2.dev.trace =
+      [(0, List.range 22), (2, (List.range 50).drop 44)] ∧
+    uploadDelivered 22 silentPlan (List.range 50)
+      (uploadBinary true 22 20 1 0 3 (List.range 50) (Dev.init silentPlan)).2.dev.trace = false := by decide +kernel
+
+/-- repaired: block 1 is sent again with the same number and the same bytes; the controller holds the binary.
+With every request for block 1 unanswered the upload ends with the time-out error after `retry` attempts. -/
+theorem resend_upload_witness :
+    (uploadBinaryR true 22 20 1 0 3 (List.range 50) (Dev.init silentPlan)).1 = .ok () ∧
+    (uploadBinaryR true 22 20 1 0 3 (List.range 50) (Dev.init silentPlan)).2.dev.trace =
+      [.block 0 (List.range 22), .block 1 ((List.range 44).drop 22), .block 1 ((List.range 44).drop 22),
+       .block 2 ((List.range 50).drop 44)] ∧
+    uploadDelivered 22 silentPlan (List.range 50)
+      (uploadBinaryR true 22 20 1 0 3 (List.range 50) (Dev.init silentPlan)).2.dev.trace = true ∧
+    (uploadBinaryR true 22 20 1 0 3 (List.range 50) (Dev.init fun i => if 1 ≤ i then .noAnswer else .ok)).1
+      = .timeoutError ∧
+    (uploadBinaryR true 22 20 1 0 3 (List.range 50) (Dev.init fun i => if 1 ≤ i then .noAnswer else .ok)).2.dev.trace =
+      [.block 0 (List.range 22), .block 1 ((List.range 44).drop 22), .block 1 ((List.range 44).drop 22),
+       .block 1 ((List.range 44).drop 22)] := by decide +kernel
+
+theorem waitLong_plan (timeout interval lat : Nat) (s : St) :
+    (waitLong timeout interval lat s).2.dev.plan = s.dev.plan := by
+  obtain ⟨_, _, _, h, _⟩ := waitLoop_spec interval (s.now + timeout) lat (s.dev.pending + 1) s
+  exact h
+
+set_option linter.unusedSimpArgs false in
+/-- on a plan that answers every request the repaired loop IS the loop the upload theorems are proved for -/
+theorem uploadLoopR_answered (checked : Bool) (timeout interval lat : Nat) (retry : Int) :
+    ∀ (cs : List (List Nat)) (num : Nat) (s : St), (∀ i, s.dev.plan i ≠ .noAnswer) →
+      uploadLoopR checked timeout interval lat retry cs num s =
+        uploadLoop checked timeout interval lat cs num retry s := by
+  intro cs
+  induction cs with
+  | nil => intro num s _; simp [uploadLoopR, uploadLoop]
+  | cons c cs ih =>
+    intro num s h
+    have hp := h s.dev.idx
+    cases hr : s.dev.plan s.dev.idx with
+    | noAnswer => exact absurd hr hp
+    | ok =>
+      simp only [uploadLoopR, uploadLoop, sendBlockR, Dev.upload, hr, replyRsp]
+      simp only [if_true]
+      exact ih _ _ h
+    | inProgress k f =>
+      have h0 : ¬ (Spec.HpmDevice.ccInProgress = 0) := by decide
+      have h1 : (Spec.HpmDevice.ccInProgress = Gen.Hpm.ccInProgress) = True := by decide
+      simp only [uploadLoopR, uploadLoop, sendBlockR, Dev.upload, hr, replyRsp, h0, h1, if_true, if_false]
+      by_cases ha : afterWait checked (waitLong timeout interval lat
+          ⟨{ s.dev with idx := s.dev.idx + 1, pending := replyPending (Reply.inProgress k f),
+                        final := replyFinal (Reply.inProgress k f), trace := s.dev.trace ++ [Ev.block num c] },
+           s.now + lat⟩).1 = true
+      · simp only [ha, if_true]
+        apply ih
+        intro i
+        rw [waitLong_plan]
+        exact h i
+      · simp only [ha]
+        rfl
+    | err cc =>
+      simp only [uploadLoopR, uploadLoop, sendBlockR, Dev.upload, hr, replyRsp]
+      by_cases hc0 : cc = 0
+      · simp only [hc0, if_true]
+        exact ih _ _ h
+      · by_cases hc1 : cc = Gen.Hpm.ccInProgress
+        · simp only [hc0, hc1, if_true, if_false]
+          by_cases ha : afterWait checked (waitLong timeout interval lat
+              ⟨{ s.dev with idx := s.dev.idx + 1, pending := replyPending (Reply.err Gen.Hpm.ccInProgress),
+                            final := replyFinal (Reply.err Gen.Hpm.ccInProgress), trace := s.dev.trace ++ [Ev.block num c] },
+               s.now + lat⟩).1 = true
+          · simp only [ha, if_true]
+            apply ih
+            intro i
+            rw [waitLong_plan]
+            exact h i
+          · simp only [ha]
+            rfl
+        · simp only [hc0, hc1, if_false]
+/-- … hence every upload theorem above (`upload_exact`, `upload_stops`, `upload_aborts*`) holds for the repaired
+`upload_binary` as well: they speak of plans that answer every request. -/
+theorem uploadBinaryR_answered (checked : Bool) (bs timeout interval lat : Nat) (retry : Int) (binary : List Nat)
+    (plan : Nat → Reply) (hplan : ∀ i, plan i ≠ .noAnswer) :
+    uploadBinaryR checked bs timeout interval lat retry binary (Dev.init plan) =
+      uploadBinary checked bs timeout interval lat retry binary (Dev.init plan) := by
+  unfold uploadBinaryR uploadBinary
+  split
+  · rfl
+  · exact uploadLoopR_answered checked timeout interval lat retry _ _ _ (by simpa [Dev.init] using hplan)
+
+theorem upload_exact_resend (bs L timeout interval lat : Nat) (retry : Int) (binary : List Nat)
+    (plan : Nat → Reply) (hbs : 0 < bs) (hL : bs ≤ L)
+    (hplan : ∀ i, GoesOn timeout interval lat (plan i)) :
+    (uploadBinaryR true bs timeout interval lat retry binary (Dev.init plan)).1 = .ok () ∧
+    uploadExact L plan binary
+      (uploadBinaryR true bs timeout interval lat retry binary (Dev.init plan)).2.dev.trace = true := by
+  rw [uploadBinaryR_answered true bs timeout interval lat retry binary plan (fun i hi => by
+    rcases hplan i with h | ⟨k, h, _⟩ <;> simp [h] at hi)]
+  exact upload_exact bs L timeout interval lat retry binary plan hbs hL hplan
+
 /-- what the source says today: block size, first block number, increment, mask, in-progress code -/
 theorem upload_configured :
     0 < Gen.Hpm.blockSize ∧ Gen.Hpm.blockSize ≤ 22 ∧ Gen.Hpm.firstBlock = 0 ∧ Gen.Hpm.blockIncr = 1 ∧
